@@ -492,6 +492,36 @@ def training_isolation(chk, rng):
 
 
 # ----------------------------------------------------------------------------- loss
+def history_cases(chk, rng, n):
+    """member-wise queries on one ensemble object before and after its parameters change (training, restore, assignment):
+    member i's prediction / distribution always equals slice i of the joint forward pass with the current parameters"""
+    import jax
+    import jax.numpy as jnp
+    from flax import nnx
+    for k in range(n):
+        E, n_in, n_out = int(rng.integers(2, 4)), int(rng.integers(1, 4)), int(rng.integers(1, 3))
+        ens, _, spec = make_ensemble(rng, E, n_in, n_out, bool(k % 2), [3] if k % 3 else [], "relu")
+        X = dy(rng, (3, n_in))
+        i = int(rng.integers(0, E))
+        case = {"n_ensemble": E, "n_features": n_in, "n_outputs": n_out, "member": i, "X": tolist(X)}
+        chk.case(("history", k, E, n_in, n_out))
+        chk.count("history_cases")
+        for phase in ("fresh", "after-parameter-change", "after-second-change"):
+            ok, r = chk.impl_call("C17:call:batch-raises", case, lambda: ens(jnp.asarray(X)))
+            okb, bp = chk.impl_call("C17:base_predict:batch-raises", case, lambda: ens.base_predict(jnp.asarray(X), i))
+            okd, bd = chk.impl_call("C17:base_distribution:batch-raises", case, lambda: ens.base_distribution(jnp.asarray(X), i))
+            if not (ok and okb and okd):
+                break
+            means = np.asarray(r[0], dtype=float)
+            pm = np.asarray(bp[0], dtype=float)
+            dm = np.asarray(bd.mean(), dtype=float)
+            if not close(pm, means[i]) or not close(dm.reshape(means[i].shape), means[i]):
+                chk.fail("C17:base_predict:stale", "member i's prediction / distribution differs from slice i of the joint pass after the ensemble's parameters changed",
+                         {"case": case, "phase": phase, "base_predict_mean": tolist(pm), "base_distribution_mean": tolist(dm), "joint_slice": tolist(means[i])})
+                break
+            nnx.update(ens, jax.tree_util.tree_map(lambda a: a + jnp.asarray(rng.normal(0, 0.5, size=a.shape), dtype=a.dtype), nnx.state(ens, nnx.Param)))
+
+
 def nll_cases(chk, rng, n):
     import jax.numpy as jnp
     from rl_blox.blox.probabilistic_ensemble import gaussian_nll
@@ -499,7 +529,7 @@ def nll_cases(chk, rng, n):
     for _ in range(n):
         shape = tuple(int(v) for v in rng.integers(1, 4, size=int(rng.integers(2, 4))))
         mu, y = dy(rng, shape), dy(rng, shape)
-        lv = dy(rng, shape, -12, 9)
+        lv = dy(rng, shape, -12, 9) if _ % 3 else dy(rng, shape, -60, 61)      # every third case: log-variances up to +-15
         case = {"mean": tolist(mu), "log_var": tolist(lv), "Y": tolist(y)}
         ok, out = chk.impl_call("C17:gaussian_nll:raises", case, lambda: float(gaussian_nll(jnp.asarray(mu), jnp.asarray(lv), jnp.asarray(y))))
         chk.case(("nll", shape, mu.tobytes(), lv.tobytes()), nontrivial=mu.size > 1)
@@ -767,6 +797,7 @@ def main(chk):
     index_cases(chk, rng, 30 if q else 400)
     training_isolation(chk, rng)
     nll_cases(chk, rng, 30 if q else 500)
+    history_cases(chk, rng, 6 if q else 60)
     ensemble_loss_case(chk, rng)
     plan_cases(chk, rng, 24 if q else 400)
     pendulum_cases(chk, rng, 60 if q else 2000)
